@@ -2,6 +2,7 @@
 """Regenerates the table of seeded changes in DESIGN.md (between the SEEDED-TABLE markers) from seeded/*/meta.json."""
 import json, glob, os, re
 rows = []
+MISSED = json.load(open('/verif/seeded/missed_first.json')) if os.path.exists('/verif/seeded/missed_first.json') else {}
 for f in sorted(glob.glob('/verif/seeded/*/meta.json')):
     m = json.load(open(f))
     det = m.get('detection') or {}
@@ -11,7 +12,9 @@ for f in sorted(glob.glob('/verif/seeded/*/meta.json')):
             sigs.append(s.replace('signature: ', ''))
     hist = m.get('history') or []
     note = ''
-    if m.get('missed_first'):
+    if m['id'] in MISSED:
+        note = ('' if 'before the first run' in MISSED[m['id']] or 'not valid' in MISSED[m['id']] else 'missed at first; ') + MISSED[m['id']]
+    elif m.get('missed_first'):
         note = 'missed at first; ' + m['missed_first']
     elif hist and hist[0].get('detected_before') is False:
         note = 'missed at first; caught after strengthening'
